@@ -144,12 +144,14 @@ fn run_slice(env: &Environment, kind: &str, len: usize, a: &str, b: &str, c: &st
     let (sc, vc) = bound_src("c", c, form);
     let src = if c == "_" { format!("v[{}:{}]", sa, sb) } else { format!("v[{}:{}:{}]", sa, sb, sc) };
     let v = mk_value(kind, len);
+    LONG.with(|l| l.set(len > CHARS.len()));
     let r = guarded(|| {
         let expr = env.compile_expression(&src)?;
         let out = expr.eval(context! { v => v, a => va, b => vb, c => vc })?;
         // force lazily evaluated results inside the guard
         Ok::<String, minijinja::Error>(canon(&out))
     });
+    LONG.with(|l| l.set(false));
     match r {
         Ok(Ok(s)) => s,
         Ok(Err(e)) => format!("err:{}", error_kind_name(&e)),
@@ -161,11 +163,13 @@ fn run_index(env: &Environment, kind: &str, len: usize, i: &str, form: &str) -> 
     let (si, vi) = bound_src("a", i, form);
     let src = format!("v[{}]", si);
     let v = mk_value(kind, len);
+    LONG.with(|l| l.set(len > CHARS.len()));
     let r = guarded(|| {
         let expr = env.compile_expression(&src)?;
         let out = expr.eval(context! { v => v, a => vi })?;
         Ok::<String, minijinja::Error>(canon_elem(kind, &out))
     });
+    LONG.with(|l| l.set(false));
     match r {
         Ok(Ok(s)) => s,
         Ok(Err(e)) => format!("err:{}", error_kind_name(&e)),
@@ -267,6 +271,66 @@ impl Object for PlainObj {
     fn repr(self: &Arc<Self>) -> ObjectRepr { ObjectRepr::Plain }
 }
 
+/// A custom object for every `Enumerator` variant under both sequence-like representations:
+/// `CE:<repr>:<variant>:<n>` with repr `S` (`ObjectRepr::Seq`, answers `get_value` by position) or
+/// `I` (`ObjectRepr::Iterable`, no `get_value`), items 0..n.  Variants: `seq` `Enumerator::Seq(n)`,
+/// `vals` `Values`, `iter` `Iter` with exact size hints, `iterlo` `Iter` whose upper bound is too
+/// large (n + 2), `iterlow` `Iter` with a lower bound only, `iternone` `Iter` without hints,
+/// `rev` `RevIter`, `empty` `Empty`, `str` `Str` (items are names), `kv` / `revkv` pairs.
+#[derive(Debug)]
+struct CustomEnum { seq: bool, variant: String, n: usize }
+
+struct Hinted<I> { inner: I, lo: usize, hi: Option<usize> }
+impl<I: Iterator<Item = Value>> Iterator for Hinted<I> {
+    type Item = Value;
+    fn next(&mut self) -> Option<Value> { self.inner.next() }
+    fn size_hint(&self) -> (usize, Option<usize>) { (self.lo, self.hi) }
+}
+
+const CE_NAMES: [&str; 6] = ["n0", "n1", "n2", "n3", "n4", "n5"];
+
+impl CustomEnum {
+    fn item(&self, i: usize) -> Value {
+        match self.variant.as_str() {
+            "str" => Value::from(CE_NAMES[i]),
+            "kv" | "revkv" => Value::from(vec![Value::from(i as i64), Value::from(10 * i as i64)]),
+            _ => Value::from(i as i64),
+        }
+    }
+}
+
+impl Object for CustomEnum {
+    fn repr(self: &Arc<Self>) -> ObjectRepr { if self.seq { ObjectRepr::Seq } else { ObjectRepr::Iterable } }
+    fn get_value(self: &Arc<Self>, key: &Value) -> Option<Value> {
+        // an object that enumerates by position (`Enumerator::Seq`) has to answer `get_value`
+        if !self.seq && self.variant != "seq" { return None; }
+        let i = key.as_usize()?;
+        if i < self.n { Some(self.item(i)) } else { None }
+    }
+    fn enumerate(self: &Arc<Self>) -> Enumerator {
+        let n = self.n;
+        let items: Vec<Value> = (0..n).map(|i| self.item(i)).collect();
+        match self.variant.as_str() {
+            "seq" => Enumerator::Seq(n),
+            "vals" => Enumerator::Values(items),
+            "iter" => Enumerator::Iter(Box::new(items.into_iter())),
+            "iterlo" => Enumerator::Iter(Box::new(Hinted { inner: items.into_iter(), lo: 0, hi: Some(n + 2) })),
+            "iterlow" => Enumerator::Iter(Box::new(Hinted { inner: items.into_iter(), lo: n.min(1), hi: None })),
+            "iternone" => Enumerator::Iter(Box::new(Hinted { inner: items.into_iter(), lo: 0, hi: None })),
+            "rev" => Enumerator::RevIter(Box::new(items.into_iter())),
+            "empty" => Enumerator::Empty,
+            "str" => Enumerator::Str(&CE_NAMES[..n.min(6)]),
+            "kv" => Enumerator::KeyValueIter(Box::new((0..n as i64).map(|i| (Value::from(i), Value::from(10 * i))))),
+            "revkv" => Enumerator::RevKeyValueIter(Box::new((0..n as i64).map(|i| (Value::from(i), Value::from(10 * i))))),
+            _ => panic!("bad CE variant"),
+        }
+    }
+}
+
+fn eval_with(src: &str, ctx: Value) -> Value {
+    derived_env("L").compile_expression(src).unwrap().eval(ctx).unwrap()
+}
+
 fn mk_spec(spec: &str) -> Value {
     let (tag, arg) = spec.split_once(':').unwrap_or((spec, ""));
     let n = || arg.parse::<usize>().unwrap();
@@ -310,6 +374,23 @@ fn mk_spec(spec: &str) -> Value {
             Value::from(m)
         }
         "Q" => Value::from_object(PlainObj),
+        // std collections that are `ObjectRepr::Iterable` (sets, linked lists)
+        "BS" => Value::from((0..n() as i64).collect::<std::collections::BTreeSet<_>>()),
+        "LL" => Value::from((0..n() as i64).collect::<std::collections::LinkedList<_>>()),
+        "HS" => Value::from((0..n() as i64).collect::<std::collections::HashSet<_>>()),
+        // repetitions: `RP:<n>x<k>` = [0..n) * k, `RR:<n>x<a>x<b>` = ([0..n) * a) * b
+        "RP" | "RR" => {
+            let p: Vec<usize> = arg.split('x').map(|x| x.parse().unwrap()).collect();
+            let base = Value::from((0..p[0] as i64).collect::<Vec<_>>());
+            if tag == "RP" { eval_with("v * a", context! { v => base, a => p[1] }) }
+            else { eval_with("(v * a) * b", context! { v => base, a => p[1], b => p[2] }) }
+        }
+        // the reversed view of another spec (`=` stands for `:` in the inner spec)
+        "RV" => mk_spec(&arg.replace('=', ":")).reverse().unwrap(),
+        "CE" => {
+            let p: Vec<&str> = arg.split(':').collect();
+            Value::from_object(CustomEnum { seq: p[0] == "S", variant: p[1].to_string(), n: p[2].parse().unwrap() })
+        }
         _ => panic!("bad value spec {}", spec),
     }
 }
@@ -384,8 +465,8 @@ fn canon_g(v: &Value) -> String {
 fn canon_item(container: &str, v: &Value) -> String {
     if v.is_undefined() { return "undef".into(); }
     match v.kind() {
-        ValueKind::String if container.starts_with('s') => format!("chr:{}{}", hex(v.as_str().unwrap().as_bytes()), if v.is_safe() { ":safe" } else { "" }),
-        ValueKind::Number if container.starts_with('b') && v.is_integer() => format!("byte:{}", v),
+        ValueKind::String if container.starts_with('s') || container.starts_with("RV:s") => format!("chr:{}{}", hex(v.as_str().unwrap().as_bytes()), if v.is_safe() { ":safe" } else { "" }),
+        ValueKind::Number if (container.starts_with('b') || container.starts_with("RV:b")) && v.is_integer() => format!("byte:{}", v),
         ValueKind::Number if v.is_integer() => format!("elem:{}", v),
         _ => format!("other:{}", canon_g(v)),
     }
@@ -517,7 +598,7 @@ fn long_chr(i: usize) -> char {
     let q = (i / 4) as u32;
     match i % 4 {
         0 => char::from_u32(0x61 + q % 26).unwrap(),
-        1 => char::from_u32(0xe0 + q % 32).unwrap(),
+        1 => char::from_u32(0x300 + q % 32).unwrap(),   // combining marks: a scalar value of its own, for Python as for Rust
         2 => char::from_u32(0x4e00 + q % 1000).unwrap(),
         _ => char::from_u32(0x1f600 + q % 64).unwrap(),
     }
@@ -537,9 +618,14 @@ fn mk_long(kind: &str, len: usize) -> Value {
         "iterunsized" => { let n = len as i64; Value::make_iterable(move || { let mut i = 0i64; std::iter::from_fn(move || if i < n { i += 1; Some(i - 1) } else { None }) }) }
         "oneshot" => Value::make_one_shot_iterator(0..len as i64),
         "range" => mk_value("range", len),
+        // a repetition: len items = (0..len/100 or so) repeated; item i = i % base
+        "rep" => { let base = rep_base(len); eval_with("v * n", context! { v => Value::from((0..base as i64).collect::<Vec<_>>()), n => len / base }) }
         _ => panic!("bad long kind"),
     }
 }
+
+/// the operand length of the `rep` kind: the largest divisor of `len` that is at most 1000
+fn rep_base(len: usize) -> usize { (1..=1000usize.min(len.max(1))).rev().find(|d| len % d == 0).unwrap_or(1) }
 
 fn digest(class: &str, xs: impl Iterator<Item = u64>) -> String {
     let mut h: u64 = 0xcbf29ce484222325;
@@ -668,8 +754,21 @@ fn value_specs() -> Vec<String> {
     for r in ["sn", "sm", "sa"] { v.push(format!("{}:{}", r, s5)); }
     v.push(format!("sm:{}", hex(long.as_bytes())));
     v.push(format!("sa:{}", hex(long.as_bytes())));
+    // combining marks, a ZWJ sequence and 4-byte characters: Python and Rust both count scalar values
+    v.push(format!("sm:{}", hex("e\u{301}\u{1f469}\u{200d}\u{1f680}x".as_bytes())));
+    for s in NEW_VALUE_SPECS { v.push(s.to_string()); }
     v
 }
+
+/// every sequence-like object kind the engine registers besides the classic ones: std sets and
+/// linked lists, repetitions (also nested), reversed views, one custom object per `Enumerator`
+/// variant under both sequence-like `ObjectRepr`s
+const NEW_VALUE_SPECS: &[&str] = &[
+    "BS:4", "LL:4", "HS:1", "RP:3x2", "RP:0x3", "RP:2x0", "RR:2x2x2", "RR:1x3x1",
+    "RV:L=4", "RV:X=4", "RV:BS=4", "RV:LL=3", "RV:P=3", "RV:RP=2x2", "RV:CE=I=vals=4", "RV:CE=I=rev=4", "RV:CE=S=seq=4", "RV:O=3", "RV:sm=61c3a962", "RV:b=000102",
+    "CE:S:seq:4", "CE:S:vals:4", "CE:S:iter:4", "CE:S:rev:4", "CE:S:empty:0",
+    "CE:I:seq:4", "CE:I:vals:4", "CE:I:iter:4", "CE:I:iterlo:4", "CE:I:iterlow:4", "CE:I:iternone:4", "CE:I:rev:4", "CE:I:empty:0",
+];
 
 fn key_specs() -> Vec<String> {
     let mut k: Vec<String> = ["Z", "U", "T", "F"].iter().map(|s| s.to_string()).collect();
@@ -691,21 +790,32 @@ fn key_specs() -> Vec<String> {
 const MODES: [&str; 4] = ["L", "C", "S", "X"];
 const TMPL_ENTRIES: [&str; 7] = ["tmpl", "write", "blk", "mac", "for", "set", "cap"];
 
-fn gen_glue(out: &mut impl Write, thorough: bool) {
-    let mut rng = Rng::new(seed_from_env() ^ 0x9109);
+fn spec_seed(spec: &str) -> u64 {
+    spec.bytes().fold(0xcbf29ce484222325u64, |h, b| (h ^ b as u64).wrapping_mul(0x100000001b3))
+}
+
+const GS_SHARDS: usize = 8;
+
+/// slices: value specs `shard, shard + GS_SHARDS, …`; every value draws from its own generator
+fn gen_gs(out: &mut impl Write, thorough: bool, shard: usize) {
     let values = value_specs();
     let keys = key_specs();
     let others: [(&str, &str); 9] = [("_", "_"), ("i:1", "i:3"), ("i:-2", "_"), ("_", "i:-1"), ("i:0", "i:2"), ("i:-1", "i:-1"),
                                      ("i:2", "i:0"), ("U", "_"), ("sn:31", "sm:31")];
     let den = if thorough { 2 } else { 16 };
-    // ---- slices
-    for vs in &values {
+    for (vi, vs) in values.iter().enumerate() {
+        if vi % GS_SHARDS != shard { continue; }
+        let mut rng = Rng::new(seed_from_env() ^ 0x9109 ^ spec_seed(vs));
+        // the conversion of the parts happens before the dispatch on the value: the object kinds
+        // of NEW_VALUE_SPECS meet every key with three neighbour pairs instead of nine
+        let newkind = NEW_VALUE_SPECS.contains(&vs.as_str());
         let mut ks: Vec<String> = keys.clone();
         ks.push("_".to_string());
         for k in &ks {
             for pos in 0..3 {
-                for (o1, o2) in others {
-                    let (a, b, c) = match pos { 0 => (k.as_str(), o1, o2), 1 => (o1, k.as_str(), o2), _ => (o1, o2, k.as_str()) };
+                for (oi, (o1, o2)) in others.iter().enumerate() {
+                    if newkind && !thorough && !matches!(oi, 0 | 2 | 6) { continue; }
+                    let (a, b, c) = match pos { 0 => (k.as_str(), *o1, *o2), 1 => (*o1, k.as_str(), *o2), _ => (*o1, *o2, k.as_str()) };
                     for mode in MODES {
                         let entries: Vec<&str> = std::iter::once("expr").chain(std::iter::once("lit")).chain(TMPL_ENTRIES.iter().copied()).collect();
                         for entry in entries {
@@ -720,8 +830,14 @@ fn gen_glue(out: &mut impl Write, thorough: bool) {
             }
         }
     }
+}
+
+fn gen_gi(out: &mut impl Write, thorough: bool) {
+    let values = value_specs();
+    let keys = key_specs();
     // ---- subscripts
     for vs in &values {
+        let mut rng = Rng::new(seed_from_env() ^ 0x9119 ^ spec_seed(vs));
         for k in &keys {
             for mode in MODES {
                 for entry in ["expr", "api", "tmpl", "lit", "dot", "apiidx", "write", "blk", "mac", "for", "set", "cap"] {
@@ -780,10 +896,10 @@ fn rnd_big_bound(rng: &mut Rng, len: usize, step: bool) -> String {
     }
 }
 
-fn gen_long(out: &mut impl Write, thorough: bool) {
-    let mut rng = Rng::new(seed_from_env() ^ 0x10c9);
+fn gen_long(out: &mut impl Write, thorough: bool, shard: u64) {
+    let mut rng = Rng::new(seed_from_env() ^ 0x10c9 ^ (shard << 32));
     let kinds = ["strn", "strm", "stra", "bytes", "list", "tuple", "deque", "itersized", "iterunsized", "oneshot", "range"];
-    let n = if thorough { 300_000 } else { 30_000 };
+    let n = (if thorough { 1_200_000 } else { 30_000 }) / LONG_SHARDS;
     for _ in 0..n {
         let kind = *rng.pick(&kinds);
         let len = match rng.below(3) { 0 => rng.below(50), 1 => rng.below(300), _ => rng.below(2001) } as usize;
@@ -805,10 +921,10 @@ fn gen_long(out: &mut impl Write, thorough: bool) {
     }
 }
 
-fn gen_meta(out: &mut impl Write, thorough: bool) {
-    let mut rng = Rng::new(seed_from_env() ^ 0x3e7a);
+fn gen_meta(out: &mut impl Write, thorough: bool, shard: u64) {
+    let mut rng = Rng::new(seed_from_env() ^ 0x3e7a ^ (shard << 32));
     let kinds = ["strn", "strm", "stra", "bytes", "list", "tuple", "deque", "itersized", "iterunsized", "range"];
-    let n = if thorough { 120_000 } else { 16_000 };
+    let n = (if thorough { 400_000 } else { 16_000 }) / 2;
     let small = |rng: &mut Rng, len: usize| -> String {
         match rng.below(8) { 0 | 1 => "_".to_string(), 2 => i64::MAX.to_string(), 3 => i64::MIN.to_string(),
             _ => (rng.below(2 * len as u64 + 7) as i64 - len as i64 - 3).to_string() }
@@ -915,7 +1031,138 @@ const DERIVED: &[(&str, &str)] = &[
     ("joiner", "joiner(',')"),
     ("dict", "dict(a=1)"),
     ("merge_ctx", "merged"),
+    // ---- repetitions (`Repeated`, tuples repeat eagerly), also of repetitions
+    ("rep_xs2", "xs * 2"),
+    ("rep_2xs", "2 * xs"),
+    ("rep_one", "xs * 1"),
+    ("rep_zero", "xs * 0"),
+    ("rep_nested", "(xs * 2) * 3"),
+    ("rep_nested3", "((xs * 2) * 1) * 2"),
+    ("rep_nested_l", "2 * (3 * xs)"),
+    ("rep_nested_zero", "(xs * 0) * 3"),
+    ("rep_e", "e * 3"),
+    ("rep_e_nested", "(e * 2) * 2"),
+    ("rep_t", "t * 2"),
+    ("rep_t_nested", "(t * 2) * 2"),
+    ("rep_t_zero", "t * 0"),
+    ("rep_t_one", "1 * t"),
+    ("rep_t0", "t0 * 3"),
+    ("rep_it_zero", "it * 0"),
+    ("rep_range_one", "range(3) * 1"),
+    ("rep_it", "it * 2"),
+    ("rep_range", "range(3) * 2"),
+    ("rep_chain", "(e|chain(xs)) * 2"),
+    ("rep_of_slice", "xs[1:] * 2"),
+    ("rep_of_rev", "(xs|reverse) * 2"),
+    ("rep_bs", "bs * 2"),
+    ("rep_true", "xs * true"),
+    ("slice_of_rep", "(xs * 2)[1:5]"),
+    ("chain_of_rep", "(xs * 2)|chain(xs * 1)"),
+    ("add_of_rep", "(xs * 2) + (t|list * 2)"),
+    // ---- attribute paths with numeric parts: `Value::get_path` splits at dots and indexes by position
+    ("path_map0", "prs|map(attribute='0')"),
+    ("path_map1", "prs|map(attribute='1')"),
+    ("path_nested", "nest|map(attribute='0.1')"),
+    ("path_sort0", "prs|sort(attribute='0')"),
+    ("path_sort1_rev", "prs|sort(attribute='1', reverse=true)"),
+    ("path_tuple", "tps|map(attribute='1')"),
+    ("path_str", "['ab', 'cd']|map(attribute='1')"),
+    ("path_oob", "prs|map(attribute='5')"),
+    ("path_select", "prs|selectattr('0')"),
+    ("path_reject", "prs|rejectattr('0')"),
+    ("path_unique", "prs|unique(attribute='0')"),
+    ("path_groupby_first", "(prs|groupby('0'))[0]"),
+    // ---- operands that know their length mixed with operands that do not
+    ("chain_xs_ux", "xs|chain(ux)"),
+    ("chain_ux_xs", "ux|chain(xs)"),
+    ("chain_ux_e_ux", "ux|chain(e, ux)"),
+    ("add_xs_ux", "xs + ux"),
+    ("add_ux_xs", "ux + xs"),
+    ("slice_ux_open", "ux[1:]"),
+    ("slice_ux_back", "ux[::-1]"),
+    ("slice_ux_end", "ux[-2:]"),
+    ("chain_of_slices", "ux[1:]|chain(xs[:2])"),
+    ("zip_ux", "ux|zip(xs)"),
+    ("batch_ux", "ux|batch(2)"),
+    // ---- std sets / linked lists / deques / arrays
+    ("bs", "bs"),
+    ("ll", "ll"),
+    ("hs1", "hs1"),
+    ("dq", "dq"),
+    ("arr", "arr"),
+    ("bs_slice", "bs[1:]"),
+    ("ll_back", "ll[::-1]"),
+    // ---- reversed views of every enumerator flavour
+    ("rev_bs", "bs|reverse"),
+    ("rev_ll", "ll|reverse"),
+    ("rev_dq", "dq|reverse"),
+    ("rev_arr", "arr|reverse"),
+    ("rev_rep", "(xs * 2)|reverse"),
+    ("rev_rev", "xs|reverse|reverse"),
+    ("rev_rev_bs", "bs|reverse|reverse"),
+    ("rev_e", "e|reverse"),
+    ("rev_slice", "xs[1:]|reverse"),
+    ("rev_back_slice", "xs[::-1]|reverse"),
+    ("rev_m", "m|reverse"),
+    ("rev_items", "m|items|reverse"),
+    ("rev_batch", "xs|batch(2)|reverse"),
+    ("rev_oneshot", "os|reverse"),
+    ("rev_ce_seq", "ce_s_seq|reverse"),
+    ("rev_ce_vals", "ce_i_vals|reverse"),
+    ("rev_ce_iter", "ce_i_iter|reverse"),
+    ("rev_ce_iternone", "ce_i_iternone|reverse"),
+    ("rev_ce_rev", "ce_i_rev|reverse"),
+    ("rev_ce_str", "ce_i_str|reverse"),
+    ("rev_ce_kv", "ce_i_kv|reverse"),
+    ("rev_ce_revkv", "ce_i_revkv|reverse"),
+    ("rev_ce_empty", "ce_i_empty|reverse"),
+    ("rev_bytes", "by|reverse"),
+    // ---- custom objects with non-integer items
+    ("ce_i_str", "ce_i_str"),
+    ("ce_s_str", "ce_s_str"),
+    ("ce_i_kv", "ce_i_kv"),
+    ("ce_i_revkv", "ce_i_revkv"),
+    // ---- chains / concatenations nested deeper than `MergeSeq::MAX_DEPTH`
+    ("deep_chain_l", "deep_chain_l"),
+    ("deep_chain_r", "deep_chain_r"),
+    ("deep_chain_mid", "deep_chain_mid"),
+    ("deep_chain_iter", "deep_chain_iter"),
+    ("deep_add_l", "deep_add_l"),
+    ("deep_add_r", "deep_add_r"),
+    ("deep_rep", "deep_rep"),
+    // ---- maps, namespaces, the loop object, plain objects: not sequences (engine rule)
+    ("loop_obj", "loop_obj"),
+    ("hm", "hm"),
+    ("bytes", "by"),
 ];
+
+/// values that are expensive to build and immutable: built once per process.
+/// `deep_*`: 40 rounds of `acc|chain([i])`, `[i]|chain(acc)`, `[2i]|chain(acc, [2i+1])`,
+/// `acc + [i]`, `[i] + acc`, `acc * 1`.
+fn deep_values() -> &'static Vec<(&'static str, Value)> {
+    static CELL: std::sync::OnceLock<Vec<(&'static str, Value)>> = std::sync::OnceLock::new();
+    CELL.get_or_init(|| {
+        let env = derived_env("L");
+        let step = |src: &str, acc: &Value, i: i64| -> Value {
+            env.compile_expression(src).unwrap().eval(context! { acc => acc.clone(), i => i, j => 2 * i, k => 2 * i + 1, u => Value::make_iterable(move || (i..i + 1).filter(|_| true)) }).unwrap()
+        };
+        let build = |src: &str, first: Value, rounds: i64| -> Value {
+            let mut acc = first;
+            for i in 1..=rounds { acc = step(src, &acc, i); }
+            acc
+        };
+        let one = || Value::from(vec![0i64]);
+        vec![
+            ("deep_chain_l", build("acc|chain([i])", one(), 40)),
+            ("deep_chain_r", build("[i]|chain(acc)", one(), 40)),
+            ("deep_chain_mid", build("[j]|chain(acc, [k])", one(), 36)),
+            ("deep_chain_iter", build("acc|chain(u)", one(), 40)),
+            ("deep_add_l", build("acc + [i]", one(), 40)),
+            ("deep_add_r", build("[i] + acc", one(), 40)),
+            ("deep_rep", build("(acc * 1) * 1", Value::from(vec![5i64, 6]), 40)),
+        ]
+    })
+}
 
 fn derived_env(mode: &str) -> Environment<'static> {
     let mut env = Environment::new();
@@ -946,8 +1193,46 @@ fn derived_ctx() -> Value {
         ser_tuple => Value::from(minijinja::value::Serde((1, "two", 3.5))),
         ser_vec => Value::from(minijinja::value::Serde(vec![(1, 2), (3, 4)])),
         merged => minijinja::value::merge_maps([Value::from(vec![1, 2, 3]), Value::from(vec![4, 5])]),
+        prs => Value::from(vec![Value::from(vec![Value::from(1), Value::from("b")]), Value::from(vec![Value::from(0), Value::from("a")]), Value::from(vec![Value::from(2), Value::from("c")])]),
+        nest => Value::from(vec![Value::from(vec![Value::from(vec![5, 6])]), Value::from(vec![Value::from(vec![7, 8])])]),
+        tps => Value::from(vec![Value::from(Tuple::from(vec![Value::from(1), Value::from("x")])), Value::from(Tuple::from(vec![Value::from(3), Value::from("y")]))]),
+        bs => Value::from([4i64, 1, 3, 2].into_iter().collect::<std::collections::BTreeSet<_>>()),
+        ll => Value::from([5i64, 6, 7].into_iter().collect::<std::collections::LinkedList<_>>()),
+        hs1 => Value::from([9i64].into_iter().collect::<std::collections::HashSet<_>>()),
+        dq => Value::from_object([11i64, 12, 13].into_iter().map(Value::from).collect::<std::collections::VecDeque<_>>()),
+        arr => Value::from_object([21i64, 22, 23]),
+        os => Value::make_one_shot_iterator(300..303i64),
+        by => Value::from_bytes(vec![1, 2, 254]),
+        hm => Value::from([("q".to_string(), 1i64)].into_iter().collect::<std::collections::HashMap<_, _>>()),
+        loop_obj => loop_object(),
+        ce_s_seq => Value::from_object(CustomEnum { seq: true, variant: "seq".into(), n: 3 }),
+        ce_i_vals => Value::from_object(CustomEnum { seq: false, variant: "vals".into(), n: 3 }),
+        ce_i_iter => Value::from_object(CustomEnum { seq: false, variant: "iter".into(), n: 3 }),
+        ce_i_iternone => Value::from_object(CustomEnum { seq: false, variant: "iternone".into(), n: 3 }),
+        ce_i_rev => Value::from_object(CustomEnum { seq: false, variant: "rev".into(), n: 3 }),
+        ce_i_str => Value::from_object(CustomEnum { seq: false, variant: "str".into(), n: 3 }),
+        ce_s_str => Value::from_object(CustomEnum { seq: true, variant: "str".into(), n: 3 }),
+        ce_i_kv => Value::from_object(CustomEnum { seq: false, variant: "kv".into(), n: 3 }),
+        ce_i_revkv => Value::from_object(CustomEnum { seq: false, variant: "revkv".into(), n: 3 }),
+        ce_i_empty => Value::from_object(CustomEnum { seq: false, variant: "empty".into(), n: 0 }),
+        deep_chain_l => deep_values()[0].1.clone(),
+        deep_chain_r => deep_values()[1].1.clone(),
+        deep_chain_mid => deep_values()[2].1.clone(),
+        deep_chain_iter => deep_values()[3].1.clone(),
+        deep_add_l => deep_values()[4].1.clone(),
+        deep_add_r => deep_values()[5].1.clone(),
+        deep_rep => deep_values()[6].1.clone(),
     }
 }
+
+/// the `loop` object of a running for loop (third of five rounds), captured from a template
+fn loop_object() -> Value {
+    let mut env = Environment::new();
+    env.add_function("stash", |v: Value| -> String { STASH.with(|p| *p.borrow_mut() = Some(v)); String::new() });
+    let _ = env.render_str("{% for q in [1, 2, 3, 4, 5] %}{% if q == 3 %}{{ stash(loop) }}{% endif %}{% endfor %}", ());
+    STASH.with(|p| p.borrow_mut().take()).unwrap_or(Value::UNDEFINED)
+}
+thread_local! { static STASH: std::cell::RefCell<Option<Value>> = std::cell::RefCell::new(None); }
 
 fn dbg_val(v: &Value) -> String {
     if v.is_undefined() { "undef".into() } else { format!("{:?}", v).replace('\t', " ").replace('\n', " ") }
@@ -1040,7 +1325,9 @@ fn run_mg(lens: &str, types: &str, entry: &str, i: &str) -> String {
     }))
 }
 
-fn gen_derived(out: &mut impl Write, thorough: bool) {
+const DV_SHARDS: usize = 6;
+
+fn gen_mg(out: &mut impl Write, thorough: bool) {
     // ---- MergeSeq: all operand-length vectors (1..=4 operands, lengths 0..=3) x every index
     for nops in 1..=4usize {
         let total = 4usize.pow(nops as u32);
@@ -1062,11 +1349,15 @@ fn gen_derived(out: &mut impl Write, thorough: bool) {
             }
         }
     }
+}
+
+fn gen_derived(out: &mut impl Write, _thorough: bool, shard: usize) {
     // ---- derived values x keys x entries
     let mut keys: Vec<String> = (-7..=7i64).map(|i| format!("i:{}", i)).collect();
     for k in ["T", "F", "u:0", "u:2", "I:-1", "I:1", "W:0", "u:9223372036854775808", "I:-9223372036854775809", "U", "Z", "sm:30", "sm:6b"] { keys.push(k.to_string()); }
     for f in [0.0, 1.0, -1.0, 2.0, 0.5] { keys.push(fb(f)); }
-    for (id, _) in DERIVED {
+    for (di, (id, _)) in DERIVED.iter().enumerate() {
+        if di % DV_SHARDS != shard { continue; }
         for k in &keys {
             for (mode, entry) in [("L", "expr"), ("X", "expr"), ("L", "attr"), ("L", "api"), ("C", "tmpl"), ("L", "apiidx")] {
                 if entry == "apiidx" && !k.starts_with("u:") { continue; }
@@ -1081,6 +1372,335 @@ fn gen_derived(out: &mut impl Write, thorough: bool) {
     }
 }
 
+
+// =====================================================================================
+// Relations on every sequence-like value (specs and derived values), produced bounds, one-shot
+// iterators used more than once, very long sequences, conversion sites
+//
+//   mr <rel> <spec>            rel in rev / first / last / len: `lhs~~rhs` on a value spec
+//   dr <rel> <id>              the same on DERIVED[id]: `lhs~~kind~~mat`
+//   pb <kind> <a> <b> <c>      bounds produced inside the template (ids of BOUND_EXPRS, `@<id>` in
+//                              c = subscript); the value is built inside the template as well
+//   os <len> <ops>             ops on ONE one-shot iterator in one template, `;`-separated:
+//                              `i<k>` subscript, `s<a>,<b>,<c>` slice + list, `t<a>,<b>,<c>` slice
+//                              listed twice, `l` list, `f` first filter
+//   cv <site> <tmplhex> <key>  a template (hex) rendered with `k` = key spec: conversion sites
+// =====================================================================================
+fn run_mr(rel: &str, spec: &str) -> String {
+    let env = Environment::new();
+    let ev = |src: &str, items: bool| -> String {
+        let v = mk_spec(spec);
+        match guarded(|| env.compile_expression(src).and_then(|e| e.eval(context! { v => v })).map(|o| if items { canon_g(&o) } else { canon_item(spec, &o) })) {
+            Ok(Ok(s)) => s, Ok(Err(e)) => err_str(&e), Err(_) => "panic".into(),
+        }
+    };
+    match rel {
+        "rev" => format!("{}~~{}", ev("v|reverse", true), ev("v[::-1]", true)),
+        "first" => format!("{}~~{}", ev("v|first", false), ev("v[0]", false)),
+        "last" => format!("{}~~{}", ev("v|last", false), ev("v[-1]", false)),
+        "len" => format!("{}~~{}", ev("v|length", false), ev("v[:]|length", false)),
+        _ => "bad-rel".into(),
+    }
+}
+
+fn run_dr(rel: &str, id: &str) -> String {
+    let x = derived_expr(id);
+    let env = derived_env("L");
+    let as_items = rel == "rev" || rel == "revslice";
+    let ev = |src: &str| res_str(guarded(|| env.compile_expression(src).and_then(|e| e.eval(derived_ctx())).map(|o| {
+        match o.kind() { ValueKind::Seq | ValueKind::Iterable if as_items => items_of(&o), _ => dbg_val(&o) }
+    })));
+    let lhs = match rel {
+        "rev" => ev(&format!("({})|reverse", x)),
+        "revslice" => ev(&format!("({})[::-1]", x)),
+        "first" => ev(&format!("({})|first", x)),
+        "last" => ev(&format!("({})|last", x)),
+        "len" => ev(&format!("({})|length", x)),
+        "lenslice" => ev(&format!("({})[:]|list|length", x)),
+        _ => "bad-rel".into(),
+    };
+    let kind = res_str(guarded(|| env.compile_expression(x).and_then(|e| e.eval(derived_ctx())).map(|o| o.kind().to_string())));
+    let mat = res_str(guarded(|| env.compile_expression(&format!("({})|list", x)).and_then(|e| e.eval(derived_ctx())).map(|o| items_of(&o))));
+    format!("{}~~{}~~{}", lhs, kind, mat)
+}
+
+/// expressions that produce a bound / subscript inside the template, with the representation the
+/// engine happens to give the result (the point of the stream: nobody chooses it)
+const BOUND_EXPRS: &[(&str, &str)] = &[
+    ("_", ""), ("lit2", "2"), ("neg1", "-1"), ("neg2p", "(-2)"), ("int_s3", "'3'|int"), ("int_sneg2", "'-2'|int"),
+    ("int_f2", "2.9|int"), ("int_fneg", "(-1.5)|int"), ("int_t", "true|int"), ("len3", "[1, 2, 3]|length"), ("abs2", "(-2)|abs"),
+    ("true", "true"), ("false", "false"), ("add2", "1 + 1"), ("subneg2", "1 - 3"), ("mul4", "2 * 2"), ("fdiv3", "7 // 2"),
+    ("fdivneg", "-3 // 2"), ("mod3", "7 % 4"), ("pow2", "2 ** 1"), ("round2", "2.4|round|int"), ("loopidx", "loop.index"),
+    ("looplen", "loop.length"), ("looprev0", "loop.revindex0"), ("big63", "9223372036854775808"), ("negbig", "-9223372036854775809"),
+    ("big64", "18446744073709551616"), ("min1", "[3, 1]|min"), ("sum2", "[1, 1]|sum"), ("count3", "'abc'|count"), ("first2", "[2]|first"),
+    ("nsattr", "namespace(a=2).a"), ("negvar", "-two"), ("varu", "two_u64"), ("var128", "three_i128"), ("varu128", "one_u128"),
+    ("cond", "2 if true else 0"), ("float2", "2.0"), ("floatneg1", "-1.0"), ("sumf", "[1.0, 1.0]|sum"), ("divf", "4 / 2"),
+];
+
+fn bound_expr(id: &str) -> &'static str {
+    BOUND_EXPRS.iter().find(|(i, _)| *i == id).map(|(_, e)| *e).unwrap_or("undefined_name")
+}
+
+fn run_pb(kind: &str, a: &str, b: &str, c: &str) -> String {
+    let vsrc = match kind {
+        "list" => "[0, 1, 2, 3, 4]", "tuple" => "(0, 1, 2, 3, 4)", "str" => "'a\u{e9}\u{20ac}\u{1d11e}b'", "range" => "range(5)",
+        "listv" => "lv", "strv" => "sv", "unsized" => "uv", "bytes" => "bv", _ => "undefined_name",
+    };
+    let expr = if let Some(k) = c.strip_prefix('@') { format!("{}[{}]", vsrc, bound_expr(k)) }
+        else { format!("{}[{}:{}:{}]", vsrc, bound_expr(a), bound_expr(b), bound_expr(c)) };
+    let mut env = derived_env("L");
+    env.add_function("probe", |v: Value| -> String {
+        let s = match v.kind() {
+            ValueKind::String => format!("str:{}", hex(v.as_str().unwrap().as_bytes())),
+            ValueKind::Bytes => format!("bytes:{}", hex(v.as_bytes().unwrap())),
+            ValueKind::Seq | ValueKind::Iterable => format!("{}:{}", if v.is_tuple() { "tuple" } else { "list" }, match v.try_iter() { Ok(it) => it.map(|x| elem_str(&x)).collect::<Vec<_>>().join(","), Err(e) => err_str(&e) }),
+            _ => if v.is_undefined() { "undef".into() } else { format!("elem:{}", v) },
+        };
+        PROBE.with(|p| *p.borrow_mut() = Some(s));
+        String::new()
+    });
+    PROBE.with(|p| *p.borrow_mut() = None);
+    let ctx = context! { two => 2, two_u64 => 2u64, three_i128 => 3i128, one_u128 => 1u128, lv => vec![0, 1, 2, 3, 4], sv => "a\u{e9}\u{20ac}\u{1d11e}b",
+        uv => Value::make_iterable(|| (0..5i64).filter(|_| true)), bv => Value::from_bytes(vec![0, 1, 2, 3, 4]) };
+    // the third round of a loop over five items: loop.index = 3, loop.length = 5, loop.revindex0 = 2
+    let src = format!("{{% for q in [1, 2, 3, 4, 5] %}}{{% if q == 3 %}}{{{{ probe({}) }}}}{{% endif %}}{{% endfor %}}", expr);
+    match guarded(|| env.render_str(&src, ctx)) {
+        Ok(Ok(_)) => PROBE.with(|p| p.borrow_mut().take()).unwrap_or_else(|| "no-probe".into()),
+        Ok(Err(e)) => err_str(&e),
+        Err(_) => "panic".into(),
+    }
+}
+
+fn run_os(len: usize, ops: &str) -> String {
+    let mut src = String::new();
+    for op in ops.split(';') {
+        let (h, rest) = op.split_at(1);
+        let sl = |rest: &str| { let p: Vec<&str> = rest.split(',').collect(); let f = |x: &str| if x == "_" { String::new() } else { bound_lit(x) }; format!("[{}:{}:{}]", f(p[0]), f(p[1]), f(p[2])) };
+        match h {
+            "i" => src.push_str(&format!("{{{{ it[{}] }}}}|", bound_lit(rest))),
+            "s" => src.push_str(&format!("{{{{ it{}|list }}}}|", sl(rest))),
+            "t" => src.push_str(&format!("{{% set s = it{} %}}{{{{ s|list }}}}~{{{{ s|list }}}}|", sl(rest))),
+            "l" => src.push_str("{{ it|list }}|"),
+            "f" => src.push_str("{{ it|first }}|"),
+            _ => src.push_str("bad-op|"),
+        }
+    }
+    let env = Environment::new();
+    match guarded(|| env.render_str(&src, context! { it => Value::make_one_shot_iterator(0..len as i64) })) {
+        Ok(Ok(s)) => s.replace(' ', ""), Ok(Err(e)) => err_str(&e), Err(_) => "panic".into(),
+    }
+}
+
+fn run_cv(tmplhex: &str, key: &str) -> String {
+    let src = String::from_utf8(unhex(tmplhex)).unwrap();
+    let env = derived_env("L");
+    let c = derived_ctx();
+    match guarded(|| env.render_str(&src, context! { k => mk_spec(key), ..c })) {
+        Ok(Ok(s)) => format!("out:{}", hex(s.as_bytes())), Ok(Err(e)) => err_str(&e), Err(_) => "panic".into(),
+    }
+}
+
+fn gen_relations(out: &mut impl Write, thorough: bool) {
+    for spec in value_specs() {
+        for rel in ["rev", "first", "last", "len"] {
+            writeln!(out, "mr {} {}\t{}", rel, spec, run_mr(rel, &spec)).unwrap();
+        }
+    }
+    for (id, _) in DERIVED {
+        for rel in ["rev", "revslice", "first", "last", "len", "lenslice"] {
+            writeln!(out, "dr {} {}\t{}", rel, id, run_dr(rel, id)).unwrap();
+        }
+    }
+    // ---- bounds produced inside the template
+    let mut rng = Rng::new(seed_from_env() ^ 0x9b09);
+    let ids: Vec<&str> = BOUND_EXPRS.iter().map(|(i, _)| *i).collect();
+    let kinds = ["list", "tuple", "str", "range", "listv", "strv", "unsized", "bytes"];
+    for kind in kinds {
+        for id in &ids {
+            for pos in 0..3 {
+                let (a, b, c) = match pos { 0 => (*id, "_", "_"), 1 => ("_", *id, "_"), _ => ("_", "_", *id) };
+                writeln!(out, "pb {} {} {} {}\t{}", kind, a, b, c, run_pb(kind, a, b, c)).unwrap();
+            }
+            if *id != "_" {
+                let c = format!("@{}", id);
+                writeln!(out, "pb {} _ _ {}\t{}", kind, c, run_pb(kind, "_", "_", &c)).unwrap();
+            }
+        }
+    }
+    for _ in 0..(if thorough { 200_000 } else { 4_000 }) {
+        let kind = *rng.pick(&kinds);
+        let (a, b, c) = (*rng.pick(&ids), *rng.pick(&ids), *rng.pick(&ids));
+        writeln!(out, "pb {} {} {} {}\t{}", kind, a, b, c, run_pb(kind, a, b, c)).unwrap();
+    }
+    // ---- one-shot iterators used more than once
+    let small = |rng: &mut Rng, len: usize| -> String { match rng.below(7) { 0 | 1 => "_".to_string(), _ => (rng.below(2 * len as u64 + 5) as i64 - len as i64 - 2).to_string() } };
+    for _ in 0..(if thorough { 300_000 } else { 6_000 }) {
+        let len = rng.below(9) as usize;
+        let nops = 1 + rng.below(3);
+        let mut ops = Vec::new();
+        for _ in 0..nops {
+            ops.push(match rng.below(8) {
+                0 | 1 => format!("i{}", rng.below(len as u64 + 2) as i64 - if rng.chance(1, 4) { len as i64 + 1 } else { 0 }),
+                2 | 3 => { let st = match rng.below(5) { 0 => "_".to_string(), 1 => "-1".to_string(), 2 => "-2".to_string(), _ => (1 + rng.below(3)).to_string() }; format!("s{},{},{}", small(&mut rng, len), small(&mut rng, len), st) }
+                4 | 5 => { let st = match rng.below(5) { 0 => "_".to_string(), 1 => "-1".to_string(), _ => (1 + rng.below(3)).to_string() }; format!("t{},{},{}", small(&mut rng, len), small(&mut rng, len), st) }
+                6 => "l".to_string(),
+                _ => "f".to_string(),
+            });
+        }
+        let ops = ops.join(";");
+        writeln!(out, "os {} {}\t{}", len, ops, run_os(len, &ops)).unwrap();
+    }
+    // ---- very long sequences: lengths around 2^16 and at the size limits of ranges / repetitions
+    let big = |x: i64| x.to_string();
+    for kind in ["bytes", "strn", "list", "tuple", "range", "itersized", "iterunsized", "rep"] {
+        for len in [65_535usize, 65_536, 65_537, 100_000] {
+            let l = len as i64;
+            let combos: Vec<(String, String, String)> = vec![
+                (big(l - 3), "_".into(), "_".into()), (big(-3), "_".into(), "_".into()), ("_".into(), "_".into(), big(-20_000)),
+                ("_".into(), "_".into(), big(65_536)), ("_".into(), "_".into(), big(-65_536)), (big(65_534), big(65_538), "_".into()),
+                (big(-l - 1), big(3), "_".into()), (big(l + 5), big(l - 4), big(-1)), ("_".into(), "_".into(), big(l - 1)),
+                ("_".into(), big(-l + 2), "_".into()), ("_".into(), "_".into(), big(256)), (big(-1), big(-l - 2), big(-32_768)),
+                ("_".into(), "_".into(), format!("i{}", l - 1)), ("_".into(), "_".into(), format!("i{}", -l)), ("_".into(), "_".into(), "i65536".into()),
+            ];
+            for (a, b, c) in combos {
+                if !thorough && kind != "bytes" && kind != "list" && kind != "rep" && len == 65_537 { continue; }
+                writeln!(out, "huge {} {} {} {} {}\t{}", kind, len, a, b, c, run_long(kind, len, &a, &b, &c)).unwrap();
+            }
+        }
+    }
+}
+
+/// the case generators, cut into independent parts (each with its own random generators) so that
+/// `lib/props/c09.py` can run them side by side; `gen` runs all of them in this order
+fn part_names() -> Vec<String> {
+    let mut v: Vec<String> = KINDS.iter().map(|k| format!("box:{}", k)).collect();
+    for i in 0..CHAIN_SHARDS { v.push(format!("chain:{}", i)); }
+    for i in 0..GS_SHARDS { v.push(format!("gs:{}", i)); }
+    v.push("gi".into());
+    for i in 0..LONG_SHARDS { v.push(format!("long:{}", i)); }
+    for i in 0..2 { v.push(format!("meta:{}", i)); }
+    v.push("mg".into());
+    for i in 0..DV_SHARDS { v.push(format!("dv:{}", i)); }
+    v.push("rel".into());
+    v.push("litbox".into());
+    v
+}
+
+fn gen_part(out: &mut impl Write, env: &Environment, part: &str, thorough: bool) {
+    let (name, arg) = part.split_once(':').unwrap_or((part, ""));
+    match name {
+        "box" => gen_box(out, env, arg, thorough),
+        "chain" => gen_chain(out, env, thorough, arg.parse().unwrap()),
+        "gs" => gen_gs(out, thorough, arg.parse().unwrap()),
+        "gi" => gen_gi(out, thorough),
+        "long" => gen_long(out, thorough, arg.parse().unwrap()),
+        "meta" => gen_meta(out, thorough, arg.parse().unwrap()),
+        "mg" => gen_mg(out, thorough),
+        "dv" => gen_derived(out, thorough, arg.parse().unwrap()),
+        "rel" => gen_relations(out, thorough),
+        "litbox" => gen_litbox(out, env, thorough),
+        _ => panic!("bad part {}", part),
+    }
+}
+
+/// the box of the property's quantifier for one kind, exhaustively
+fn gen_box(out: &mut impl Write, env: &Environment, kind: &str, thorough: bool) {
+    // the thorough tier enumerates a larger box than the quantifier's (len <= 8, bounds in [-11, 11], steps in [-5, 5])
+    let ss = if thorough { bounds(-11..=11) } else { bounds(-9..=9) };
+    let steps = if thorough { bounds(-5..=5) } else { bounds(-4..=4) };
+    let forms: &[&str] = if thorough { &["var", "lit"] } else { &["var"] };
+    for len in 0..=(if thorough { 8usize } else { 6 }) {
+        if (kind == "undef" || kind == "none") && len > 0 {
+            continue;
+        }
+        for form in forms {
+            for a in &ss {
+                for b in &ss {
+                    for c in &steps {
+                        let r = run_slice(env, kind, len, a, b, c, form);
+                        writeln!(out, "slice {} {} {} {} {} {}\t{}", kind, len, a, b, c, form, r).unwrap();
+                    }
+                }
+            }
+            for i in &ss {
+                if i == "_" {
+                    continue;
+                }
+                let r = run_index(env, kind, len, i, form);
+                writeln!(out, "index {} {} {} {}\t{}", kind, len, i, form, r).unwrap();
+            }
+        }
+    }
+}
+
+/// chain stream: longer sequences, more kinds, slices of slices, subscripts of slices
+const CHAIN_SHARDS: u64 = 4;
+const LONG_SHARDS: u64 = 4;
+
+fn gen_chain(out: &mut impl Write, env: &Environment, thorough: bool, shard: u64) {
+    let mut rng = Rng::new(seed_from_env() ^ 0x0c09 ^ (shard << 32));
+    let n = (if thorough { 1_600_000 } else { 60_000 }) / CHAIN_SHARDS;
+    let kinds = ["strplain", "strsmall", "strsafe", "bytes", "list", "tuple", "itersized",
+                 "iterunsized", "range", "oneshot", "deque"];
+    for _ in 0..n {
+        let kind = *rng.pick(&kinds);
+        let len = if rng.chance(1, 3) { rng.below(7) as usize } else { 7 + rng.below(34) as usize };
+        // a quarter of the cases is a bare subscript (every kind, incl. one-shot
+        // iterators: a non-negative subscript must not drain the iterator first)
+        if rng.chance(1, 4) {
+            let i = if kind == "oneshot" {
+                rng.below(len as u64 + 3) as i64
+            } else {
+                rng.below(2 * len as u64 + 5) as i64 - len as i64 - 2
+            };
+            let suffix = format!("[{}]", i);
+            let r = run_chain(env, kind, len, &suffix);
+            writeln!(out, "chain {} {} {}\t{}", kind, len, suffix, r).unwrap();
+            continue;
+        }
+        let mut suffix = rnd_slice(&mut rng, len);
+        // one-shot iterators can be iterated once: a single op only
+        if kind != "oneshot" {
+            if rng.chance(1, 2) { suffix.push_str(&rnd_slice(&mut rng, len)); }
+            if rng.chance(1, 3) {
+                suffix.push_str(&format!("[{}]", rng.below(2 * len as u64 + 5) as i64 - len as i64 - 2));
+            }
+        }
+        let r = run_chain(env, kind, len, &suffix);
+        writeln!(out, "chain {} {} {}\t{}", kind, len, suffix, r).unwrap();
+    }
+}
+
+/// literal forms on a sub-box (the parser's negative-literal path); the thorough tier enumerates
+/// the literal forms of the whole box instead
+fn gen_litbox(out: &mut impl Write, env: &Environment, thorough: bool) {
+    if thorough { return; }
+    for kind in ["strsmall", "list", "tuple"] {
+        for len in [0usize, 3, 5] {
+            for a in ["_", "-7", "-2", "0", "1", "4", "9", "-9223372036854775808", "9223372036854775807"] {
+                for b in ["_", "-7", "-1", "0", "2", "5", "-9223372036854775808", "9223372036854775807"] {
+                    for c in ["_", "-3", "-1", "1", "2", "0", "-9223372036854775808", "9223372036854775807"] {
+                        let r = run_slice(env, kind, len, a, b, c, "lit");
+                        writeln!(out, "slice {} {} {} {} {} lit\t{}", kind, len, a, b, c, r).unwrap();
+                    }
+                }
+            }
+        }
+    }
+}
+
+fn run_more(f: &[&str]) -> String {
+    match f[0] {
+        "mr" => run_mr(f[1], f[2]),
+        "dr" => run_dr(f[1], f[2]),
+        "pb" => run_pb(f[1], f[2], f[3], f[4]),
+        "os" => run_os(f[1].parse().unwrap(), f[2]),
+        "cv" => run_cv(f[2], f[3]),
+        "huge" => run_long(f[1], f[2].parse().unwrap(), f[3], f[4], f[5]),
+        _ => "bad-case".into(),
+    }
+}
+
 fn main() {
     quiet_panics();
     let args: Vec<String> = std::env::args().collect();
@@ -1088,89 +1708,16 @@ fn main() {
     let out = std::io::stdout();
     let mut out = std::io::BufWriter::new(out.lock());
     match args.get(1).map(|s| s.as_str()) {
+        Some("parts") => {
+            for p in part_names() { writeln!(out, "{}", p).unwrap(); }
+        }
+        Some("part") => {
+            let thorough = args.get(3).map(|s| s == "thorough").unwrap_or(false);
+            gen_part(&mut out, &env, &args[2], thorough);
+        }
         Some("gen") => {
             let thorough = args.get(2).map(|s| s == "thorough").unwrap_or(false);
-            let ss = bounds(-9..=9);
-            let steps = bounds(-4..=4);
-            let forms: &[&str] = if thorough { &["var", "lit"] } else { &["var"] };
-            for kind in KINDS {
-                for len in 0..=6usize {
-                    if (kind == "undef" || kind == "none") && len > 0 {
-                        continue;
-                    }
-                    for form in forms {
-                        for a in &ss {
-                            for b in &ss {
-                                for c in &steps {
-                                    // the quick tier enumerates literal forms only on a sub-box
-                                    let r = run_slice(&env, kind, len, a, b, c, form);
-                                    writeln!(out, "slice {} {} {} {} {} {}\t{}", kind, len, a, b, c, form, r).unwrap();
-                                }
-                            }
-                        }
-                        for i in &ss {
-                            if i == "_" {
-                                continue;
-                            }
-                            let r = run_index(&env, kind, len, i, form);
-                            writeln!(out, "index {} {} {} {}\t{}", kind, len, i, form, r).unwrap();
-                        }
-                    }
-                }
-            }
-            // ---- chain stream: longer sequences, more kinds, slices of slices, subscripts of slices
-            {
-                let mut rng = Rng::new(seed_from_env() ^ 0x0c09);
-                let n = if thorough { 400_000 } else { 60_000 };
-                let kinds = ["strplain", "strsmall", "strsafe", "bytes", "list", "tuple", "itersized",
-                             "iterunsized", "range", "oneshot", "deque"];
-                for _ in 0..n {
-                    let kind = *rng.pick(&kinds);
-                    let len = if rng.chance(1, 3) { rng.below(7) as usize } else { 7 + rng.below(34) as usize };
-                    // a quarter of the cases is a bare subscript (every kind, incl. one-shot
-                    // iterators: a non-negative subscript must not drain the iterator first)
-                    if rng.chance(1, 4) {
-                        let i = if kind == "oneshot" {
-                            rng.below(len as u64 + 3) as i64
-                        } else {
-                            rng.below(2 * len as u64 + 5) as i64 - len as i64 - 2
-                        };
-                        let suffix = format!("[{}]", i);
-                        let r = run_chain(&env, kind, len, &suffix);
-                        writeln!(out, "chain {} {} {}\t{}", kind, len, suffix, r).unwrap();
-                        continue;
-                    }
-                    let mut suffix = rnd_slice(&mut rng, len);
-                    // one-shot iterators can be iterated once: a single op only
-                    if kind != "oneshot" {
-                        if rng.chance(1, 2) { suffix.push_str(&rnd_slice(&mut rng, len)); }
-                        if rng.chance(1, 3) {
-                            suffix.push_str(&format!("[{}]", rng.below(2 * len as u64 + 5) as i64 - len as i64 - 2));
-                        }
-                    }
-                    let r = run_chain(&env, kind, len, &suffix);
-                    writeln!(out, "chain {} {} {}\t{}", kind, len, suffix, r).unwrap();
-                }
-            }
-            gen_glue(&mut out, thorough);
-            gen_long(&mut out, thorough);
-            gen_meta(&mut out, thorough);
-            gen_derived(&mut out, thorough);
-            if !thorough {
-                // literal forms on a sub-box (the parser's negative-literal path)
-                for kind in ["strsmall", "list", "tuple"] {
-                    for len in [0usize, 3, 5] {
-                        for a in ["_", "-7", "-2", "0", "1", "4", "9", "-9223372036854775808", "9223372036854775807"] {
-                            for b in ["_", "-7", "-1", "0", "2", "5", "-9223372036854775808", "9223372036854775807"] {
-                                for c in ["_", "-3", "-1", "1", "2", "0", "-9223372036854775808", "9223372036854775807"] {
-                                    let r = run_slice(&env, kind, len, a, b, c, "lit");
-                                    writeln!(out, "slice {} {} {} {} {} lit\t{}", kind, len, a, b, c, r).unwrap();
-                                }
-                            }
-                        }
-                    }
-                }
-            }
+            for p in part_names() { gen_part(&mut out, &env, &p, thorough); }
         }
         Some("one") => {
             let f: Vec<&str> = args[2..].iter().map(|s| s.as_str()).collect();
@@ -1186,12 +1733,23 @@ fn main() {
                 "dv" => run_dv(f[1], f[2], f[3], f[4]),
                 "ds" => run_ds(f[1], f[2], f[3], f[4], f[5]),
                 "meta" => run_meta(f[1], f[2], f[3].parse().unwrap(), f[4], f[5], f[6]),
-                _ => "bad-case".into(),
+                _ => run_more(&f),
             };
             writeln!(out, "{}\t{}", f.join(" "), r).unwrap();
         }
+        // cases from stdin (one per line), e.g. the conversion-site stream generated by lib/props/c09.py
+        Some("run") => {
+            let mut line = String::new();
+            while std::io::stdin().read_line(&mut line).unwrap_or(0) > 0 {
+                let f: Vec<&str> = line.trim_end().split(' ').collect();
+                if !f.is_empty() && !f[0].is_empty() {
+                    writeln!(out, "{}\t{}", f.join(" "), run_more(&f)).unwrap();
+                }
+                line.clear();
+            }
+        }
         _ => {
-            eprintln!("usage: c09 gen <quick|thorough> | c09 one <case>");
+            eprintln!("usage: c09 gen <quick|thorough> | c09 parts | c09 part <name> <quick|thorough> | c09 one <case> | c09 run < cases");
             std::process::exit(2);
         }
     }
